@@ -31,6 +31,8 @@ def shards(tier, seed):
     out = [{"id": c.name, "cmd": c.name, "reps": 2 if tier == "quick" else 40} for c in S.COMMANDS.values() if c.facade]
     for i in range(4 if tier == "quick" else 16):
         out.append({"id": "session%d" % i, "cmd": None, "sessions": 30 if tier == "quick" else 400})
+    out.append({"id": "attached", "cmd": None, "attached": True, "reps": 1 if tier == "quick" else 12})
+    out.append({"id": "transport", "cmd": None, "transport": True, "reps": 2 if tier == "quick" else 40})
     return out
 
 
@@ -219,12 +221,19 @@ def run_sessions(shard, ctx):
 
 
 def run(shard, ctx):
+    if shard.get("transport"):
+        from vmon.sim import install
+
+        install.install_fakes()  # before anything of pyscsi is imported
+        return run_transport(shard, ctx)
     import pyscsi.pyscsi.scsi_enum_command as E
     from pyscsi.pyscsi.scsi_command import SCSICommand
 
     from vmon import harness
     from vmon.spec import cdb as S, dataout as DO
 
+    if shard.get("attached"):
+        return run_attached(shard, ctx)
     if shard["cmd"] is None:
         return run_sessions(shard, ctx)
     c = S.COMMANDS[shard["cmd"]]
@@ -364,6 +373,149 @@ def run(shard, ctx):
         SCSICommand.unmarshall = orig_unm
 
 
+def run_attached(shard, ctx):
+    """the facade attached through the real SCSI(dev) / s(dev) (INQUIRY answered with a device type); afterwards the device's
+    command set is assigned by hand (the workflow SCSIDevice documents for device types the facade does not map) or the
+    facade's device attribute is pointed at another device: every method uses the table the device has *now*"""
+    import pyscsi.pyscsi.scsi_enum_command as E
+    from pyscsi.pyscsi.scsi import SCSI
+
+    from vmon import harness
+    from vmon.spec import cdb as S, dataout as DO
+
+    rng = ctx.rng()
+
+    def device(devtype, log):
+        def fill(cmd):
+            log.append(cmd)
+            if cmd.cdb[0] == 0x12 and len(cmd.datain):
+                cmd.datain[0] = devtype
+        return harness.Recorder(E.spc, fill)
+
+    for rep in range(shard["reps"]):
+        for c in S.COMMANDS.values():
+            if not c.facade:
+                continue
+            for devtype in (0x00, 0x01, 0x03, 0x05, 0x08, 0x0E, 0x1F):
+                for how in ("assign_opcodes", "assign_device", "reattach_then_assign"):
+                    for setname in c.sets:
+                        log = []
+                        dev = device(devtype, log)
+                        try:
+                            s = SCSI(dev, 512)
+                            if how == "assign_opcodes":
+                                dev.opcodes = getattr(E, setname)
+                                target = dev
+                            elif how == "assign_device":
+                                target = device(rng.choice([0, 1, 5, 8]), log)
+                                target.opcodes = getattr(E, setname)
+                                s.device = target
+                            else:
+                                target = device(rng.choice([0, 1, 5, 8]), log)
+                                s(target)
+                                target.opcodes = getattr(E, setname)
+                        except Exception as e:  # noqa: BLE001
+                            ctx.fail("C13:attached.attach_raises.%s" % type(e).__name__, "attach (%s, device type %02Xh) raised %s" % (how, devtype, e), {"how": how, "devtype": devtype}, exc=e)
+                            continue
+                        del log[:]
+                        a = dict(required_args(c, rng))
+                        if "blocksize" in a and c.xfer != "ata":
+                            a["blocksize"] = 512
+                        label = c.facade + (":%d" % c.facade_fixed["service_action"] if c.facade_fixed else "")
+                        wit = {"method": label, "cmd": c.name, "attached_with_device_type": devtype, "then": how, "table_now": setname, "args": a}
+                        ctx.case(("attached", label, devtype, how, setname), True, sample={"method": label, "attached_with_device_type": devtype, "then": how, "table_now": setname} if ctx.want_sample() else None)
+                        ctx.count("attached_facade_calls")
+                        try:
+                            harness.facade_call(c, s, DO.fresh(a) if c.custom else dict(a))
+                            err = None
+                        except Exception as e:  # noqa: BLE001
+                            err = e
+                        if len(log) != 1:
+                            ctx.fail("C13:%s.attached.execute_count_%d" % (c.facade, len(log)), "%s after %s: %d commands reached the device now attached (%s)"
+                                     % (c.facade, how, len(log), "%s: %s" % (type(err).__name__, err) if err else "no error"), wit, exc=err)
+                            continue
+                        if len(target.calls) < 1 or target.calls[-1][0] is not log[0]:
+                            ctx.fail("C13:%s.attached.sent_to_other_device" % c.facade, "the command went to a device the facade is no longer attached to", wit)
+                        want_op = c.opcode_obj(setname).value
+                        if log[0].cdb[0] != want_op:
+                            ctx.fail("C13:%s.attached.opcode.%s" % (c.facade, setname), "cdb[0]=%02Xh, the device's table says %02Xh" % (log[0].cdb[0], want_op), wit)
+                        chk = dict(harness.defaults(c))
+                        chk.update(a)
+                        if c.custom:
+                            chk["_outlen"] = len(log[0].dataout)
+                        chk.update(c.facade_fixed)
+                        for mech, msg in harness.check_cdb(c, log[0].cdb, chk):
+                            ctx.fail("C13:%s.attached.cdb.%s" % (c.facade, mech), "%s on %s: %s" % (c.facade, setname, msg), dict(wit, cdb=bytes(log[0].cdb)))
+
+
+def run_transport(shard, ctx):
+    """the same 'exactly once' at the boundary to the bindings: every facade method over SCSIDevice (stand-in sgio, real node,
+    re-plugged before some calls) and ISCSIDevice (stand-in iscsi) produces exactly one binding call with the CDB and the
+    very buffers of the returned command"""
+    import sys
+
+    import pyscsi.pyscsi.scsi_enum_command as E
+
+    from vmon import harness
+    from vmon.sim import devnode, install
+    from vmon.spec import cdb as S, dataout as DO
+
+    install.install_fakes()
+    sg, isc = sys.modules["sgio"], sys.modules["iscsi"]
+    sg.handler = isc.handler = None
+    rng = ctx.rng()
+    for t in ("sgio", "iscsi"):
+        mod = sg if t == "sgio" else isc
+        if t == "sgio":
+            dev, node = install.sgio_device()
+        else:
+            dev, node = install.iscsi_device(), None
+        s = harness.make_facade(dev)
+        try:
+            for rep in range(shard["reps"]):
+                for c in S.COMMANDS.values():
+                    if not c.facade:
+                        continue
+                    setname = rng.choice(c.sets)
+                    dev.opcodes = getattr(E, setname)
+                    a = dict(required_args(c, rng))
+                    replugged = False
+                    if t == "sgio" and rng.random() < 0.4:
+                        devnode.replug(node)
+                        replugged = True
+                    mod.log = []
+                    label = c.facade + (":%d" % c.facade_fixed["service_action"] if c.facade_fixed else "")
+                    wit = {"method": label, "transport": t, "table": setname, "node_replaced_before_call": replugged, "args": a}
+                    ctx.case(("transport", t, label, setname, replugged, rep), True, sample={"method": label, "transport": t, "node_replaced_before_call": replugged} if ctx.want_sample() else None)
+                    ctx.count("transport_facade_calls")
+                    try:
+                        cmd = harness.facade_call(c, s, DO.fresh(a) if c.custom else dict(a))
+                    except Exception as e:  # noqa: BLE001
+                        cmd = None
+                        if not mod.log:
+                            ctx.fail("C13:%s.transport.%s.rejected_before_send.%s" % (c.facade, t, type(e).__name__), "%s over %s raised %s before anything was sent: %s" % (c.facade, t, type(e).__name__, e), wit, exc=e)
+                            continue
+                    if len(mod.log) != 1:
+                        ctx.fail("C13:%s.transport.%s.binding_calls_%d" % (c.facade, t, len(mod.log)), "%s over %s%s: the binding was called %d times"
+                                 % (c.facade, t, " right after the node was replaced" if replugged else "", len(mod.log)), wit)
+                        continue
+                    ev = mod.log[0]
+                    if cmd is not None:
+                        if bytes(ev["cdb"]) != bytes(cmd.cdb):
+                            ctx.fail("C13:%s.transport.%s.cdb_differs" % (c.facade, t), "the binding received another CDB than the returned command holds", wit)
+                        if ev.get("in") is not None and len(cmd.datain) and ev["in"] is not cmd.datain:
+                            ctx.fail("C13:%s.transport.%s.datain_not_the_callers" % (c.facade, t), "the binding filled another buffer than cmd.datain", wit)
+                        if ev.get("out") is not None and len(cmd.dataout) and ev["out"] is not cmd.dataout:
+                            ctx.fail("C13:%s.transport.%s.dataout_not_the_callers" % (c.facade, t), "the binding was given another buffer than cmd.dataout", wit)
+                        ctx.count("transport_buffers_identified")
+        finally:
+            try:
+                dev.close()
+            except Exception:  # noqa: BLE001
+                pass
+            mod.log = []
+
+
 class InjectedFault(Exception):
     pass
 
@@ -440,7 +592,14 @@ def same(a, b):
     return a == b
 
 
+def _finalize_extra(merged):
+    c = merged["counters"]
+    if c.get("attached_facade_calls", 0) < 100 or c.get("transport_buffers_identified", 0) < 50:
+        merged["inconclusive"].append("attached-facade / transport phases did not run (%s, %s)" % (c.get("attached_facade_calls", 0), c.get("transport_buffers_identified", 0)))
+
+
 def finalize(merged, tier):
+    _finalize_extra(merged)
     c = merged["counters"]
     for k in ("facade_calls", "execute_hook_evaluations", "results_compared", "fault_injections", "session_calls"):
         if c.get(k, 0) == 0:
